@@ -29,7 +29,9 @@ def import_bezier():
     if pkg not in sys.path:
         sys.path.insert(0, pkg)
     import bezier  # noqa
-    assert os.path.dirname(os.path.dirname(bezier.__file__)) == pkg, bezier.__file__
+    if os.path.dirname(os.path.dirname(bezier.__file__)) != pkg:
+        # infrastructure trouble (the build directory vanished), never a statement about the library
+        raise ImportError("bezier imported from %s instead of the build %s" % (bezier.__file__, pkg))
     return bezier
 
 
